@@ -164,6 +164,23 @@ func Run(bh Behaviour, seed int64) ([]Line, error) {
 				_ = raw.SetDeadline(time.Now().Add(3 * time.Second))
 				cerr = tc.HandshakeContext(ctx)
 				conn = tc
+			case "nodeAfter", "nodeBefore":
+				// the registered node as a raw TLS client that places its application protocols AFTER the certificate
+				// preference entry / BEFORE the library's chunks (any order of the ALPN list is legitimate)
+				c := hs.Client{Kind: "auth", K: "k1", Ck: "k1", Chain: "b0", Priv: true, Nsig: "k1", Pref: "cur", Extras: extras, XPos: "afterPref"}
+				if fmt.Sprint(op["kind"]) == "nodeBefore" {
+					c.XPos = "before"
+				}
+				protos, _, perr := srv.BuildAuthProtos(c)
+				cert, cerr2 := srv.ClientCert(c)
+				if perr != nil || cerr2 != nil {
+					cancel()
+					return nil, fmt.Errorf("raw node client: %v %v", perr, cerr2)
+				}
+				es, _ := srv.RawDial(ctx, protos, cert, tls.VersionTLS12)
+				if es != "" {
+					cerr = errors.New(es)
+				}
 			case "rogue":
 				// never enrolled: an EMPTY authentication entry first, then the chunks of a self-signed fetch request
 				info, ierr := srv.W.BuildInfo(world.FetchSpec{K: "kx", E: "e1", Nonce: "n1"})
